@@ -346,6 +346,8 @@ def gen_case(rng, max_depth: int = 4, smooth: bool = False) -> dict | None:
 
 def observe(case: dict) -> dict:
     """Build the real objects and evaluate them; everything the oracle needs is in the result."""
+    if case.get("disc"):
+        return observe_disc(case)
     obs: dict[str, Any] = {"points": []}
     n = case["n"]
     try:
@@ -654,8 +656,8 @@ def fails(case: dict, clause: str | None) -> list[tuple[str, str]]:
     return [b for b in bad if b[0] == clause]
 
 
-def shrink(case: dict, clause: str, budget: int = 60) -> dict:
-    """Smallest failing case found: single point, sub-tree, simple leaves."""
+def shrink(case: dict, clause: str, budget: int = 60) -> tuple[dict, str]:
+    """Smallest failing case found (single point, sub-tree, simple leaves) and the clause it violates."""
     cur = copy.deepcopy(case)
     calls = 0
     # 1. single point
@@ -680,8 +682,12 @@ def shrink(case: dict, clause: str, budget: int = 60) -> dict:
             cn, cx = lp
             c = {"n": cn, "tree": ch, "points": [[rat(t) for t in cx]], "order": cur.get("order", "vj")}
             calls += 1
-            if fails(c, clause):
+            sub_bad = fails(c, None)
+            if sub_bad:
+                # the root cause is below: go on with the clause the sub-tree violates
                 cur = c
+                if not any(k == clause for k, _ in sub_bad):
+                    clause = sub_bad[0][0]
                 changed = True
                 break
         if changed:
@@ -723,7 +729,7 @@ def shrink(case: dict, clause: str, budget: int = 60) -> dict:
                     cur = c
                     changed = True
                     break
-    return cur
+    return cur, clause
 
 
 # --------------------------------------------------------------------------- correspondence with the Lean model
@@ -833,11 +839,11 @@ def check_cases(res: Result, cases: list[dict], in_scope: bool = True, use_model
                     "model": ans[0] if ans else None})
         reported = False
         for clause, msg in bad:
-            small = shrink(case, clause)
-            small_bad = fails(small, clause) or [(clause, msg)]
-            key = f"{clause}:{root_sig(small['tree'], small['n'])}"
+            small, sclause = shrink(case, clause)
+            small_bad = fails(small, sclause) or [(clause, msg)]
+            key = f"{sclause}:{root_sig(small['tree'], small['n'])}"
             res.violate("oracle", key, small_bad[0][1] + f" [tree root: {root_sig(small['tree'], small['n'])}]",
-                        {"case": small, "clause": clause, "original_case": case if small != case else None})
+                        {"case": small, "clause": sclause, "original_case": case if small != case else None})
             reported = True
         if ans and "build_exc" not in obs:
             diffs = compare_with_model(case, obs, ans)
@@ -882,11 +888,188 @@ def search_failing_input(res: Result, case: dict) -> bool:
         bad = fails(c, None)
         if bad:
             clause, msg = bad[0]
-            small = shrink(c, clause)
-            key = f"{clause}:{root_sig(small['tree'], small['n'])}"
-            res.violate("oracle", key, msg, {"case": small, "clause": clause})
+            small, sclause = shrink(c, clause)
+            key = f"{sclause}:{root_sig(small['tree'], small['n'])}"
+            res.violate("oracle", key, msg, {"case": small, "clause": sclause})
             return True
     return False
+
+
+
+
+# --------------------------------------------------------------------------- ConstraintAggregation discipline
+
+DISC_METHOD = {"sumsq": "SUM", "possumsq": "POS_SUM", "max": "MAX", "uks": "upper_bound_KS", "lks": "lower_bound_KS", "iks": "IKS"}
+
+
+def gen_disc_case(rng) -> dict:
+    """The discipline aggregates its input vector: same as aggregating the identity function, whose
+    total Jacobian is the partial Jacobian the discipline returns."""
+    m = rng.pick([2, 3, 3, 4, 5])
+    kind = rng.pick(["sumsq", "possumsq", "uks", "lks", "iks", "max"])
+    node = gen_agg(rng, m, 0, kind)
+    k = m
+    idx = None
+    if rng.chance(0.4):
+        k = rng.randint(1, m)
+        idx = sorted(rng.sample(range(m), k))
+    node["idx"] = idx
+    if isinstance(node["scale"], list):
+        node["scale"] = [rat(rng.pick([Fraction(1), Fraction(2), Fraction(3), Fraction(1, 2)])) for _ in range(k)]
+    node["a"] = {"op": "lin", "A": [[("1" if i == j else "0") for j in range(m)] for i in range(m)], "b": ["0"] * m}
+    pts = in_scope_points(node, m, [gen_point(rng, m) for _ in range(6)])[:2]
+    return {"n": m, "tree": node, "points": pts or [[str(i) for i in range(m)]], "order": "vj", "disc": True}
+
+
+def observe_disc(case: dict) -> dict:
+    from gemseo.disciplines.constraint_aggregation import ConstraintAggregation
+
+    node = case["tree"]
+    kind = node["kind"]
+    opts: dict[str, Any] = {}
+    if node["idx"] is not None:
+        opts["indices"] = list(node["idx"])
+    sc = node["scale"]
+    scale_arr = None
+    if isinstance(sc, list):
+        scale_arr = np.array([float(Fraction(c)) for c in sc])
+        opts["scale"] = scale_arr
+    else:
+        opts["scale"] = float(Fraction(sc))
+    if kind in SMOOTH_AGG:
+        opts["rho"] = float(Fraction(node["rho"]))
+    obs: dict[str, Any] = {"points": []}
+    try:
+        disc = ConstraintAggregation(["c"], DISC_METHOD[kind], **opts)
+    except Exception as e:  # noqa: BLE001
+        obs["build_exc"] = common.exc_class(e) + ": " + repr(e)[:200]
+        return obs
+    out_name = f"{DISC_METHOD[kind]}_c"
+    scale_ref = None if scale_arr is None else scale_arr.copy()
+    for p in list(case["points"]) + list(case["points"][:1]):
+        rec: dict[str, Any] = {"x": p, "modified": [], "last_eval": []}
+        v = np.array([float(Fraction(t)) for t in p])
+        v_ref = v.copy()
+        for slot in ("v", "j", "v2", "j2"):
+            try:
+                if slot.startswith("v"):
+                    rec[slot] = canon_value(disc.execute({"c": v})[out_name])
+                elif kind != "max":  # the discipline has no Jacobian for MAX (documented as non differentiable)
+                    rec[slot] = canon_jac(disc.linearize({"c": v}, compute_all_jacobians=True)[out_name]["c"])
+            except Exception as e:  # noqa: BLE001
+                rec[slot + "_exc"] = common.exc_class(e) + ": " + repr(e)[:160]
+        if not np.array_equal(v, v_ref):
+            rec["modified"].append("input data of the discipline")
+        if scale_ref is not None and not np.array_equal(scale_arr, scale_ref):
+            rec["modified"].append("scale option of the discipline")
+        obs["points"].append(rec)
+    return obs
+
+# --------------------------------------------------------------------------- symbolic stream (for all x)
+
+
+def symbolic_ok(tree: dict) -> bool:
+    """The real code of every node is dtype-agnostic: it can be evaluated on sympy symbols."""
+    for o in tree_ops(tree):
+        if o in ("res", "cl") or (o.startswith("agg-") and o != "agg-sumsq"):
+            return False
+    return True
+
+
+def _rat_fun_equal(a, b, syms) -> bool:
+    """a == b as rational functions of syms, up to a relative coefficient error of 2^-40
+    (the code's constants are floats: 1.0/3.0 is not the rational 1/3)."""
+    import sympy as sp
+
+    na, da = sp.fraction(sp.together(sp.sympify(a)))
+    nb, db = sp.fraction(sp.together(sp.sympify(b)))
+    p1 = sp.Poly(sp.expand(na * db), *syms)
+    p2 = sp.Poly(sp.expand(nb * da), *syms)
+    diff = p1 - p2
+    scale = sum(abs(float(c)) for c in p1.coeffs()) + sum(abs(float(c)) for c in p2.coeffs())
+    worst = max([abs(float(c)) for c in diff.coeffs()] + [0.0])
+    if not math.isfinite(worst) or not math.isfinite(scale):
+        return False
+    return worst <= float(REL) * max(scale, 1e-300) or worst == 0.0
+
+
+def check_symbolic(res: Result, cases: list[dict]) -> None:
+    """Evaluate the real objects on object arrays of sympy symbols: value and Jacobian are compared
+    with the oracle's expressions as rational functions, i.e. for every real input at once."""
+    import sympy as sp
+
+    from harness.c10_tree import SQ
+    from harness.c10_tree import Oracle
+
+    for case in cases:
+        tree, n = case["tree"], case["n"]
+        res.evaluations += 1
+        res.count("stream:symbolic")
+        syms = sp.symbols(f"x0:{n}", real=True)
+        x = np.array(syms, dtype=object)
+        try:
+            exp = Oracle().ev(tree, [SQ(t) for t in syms])
+        except (Undefined, IllShaped):
+            res.count("symbolic-skipped")
+            continue
+        exp_v = [d.v.v for d in exp]
+        if sum(sp.count_ops(e) for e in exp_v) > 1500:
+            res.count("symbolic-skipped-large")
+            continue
+        bad: list[tuple[str, str]] = []
+        try:
+            impl = Impl(tree, n)
+            v = np.atleast_1d(impl.root.evaluate(x)).ravel()
+            jac = np.atleast_2d(impl.root.jac(x))
+        except Exception as e:  # noqa: BLE001
+            bad.append(("symbolic-raises", f"evaluation on symbols raised {common.exc_class(e)}: {repr(e)[:150]}"))
+            v, jac = None, None
+        if v is not None:
+            if len(v) != len(exp_v) or jac.shape != (len(exp_v), n):
+                bad.append(("symbolic-shape", f"value/Jacobian shapes {len(v)}, {jac.shape} for a function R^{n} -> R^{len(exp_v)}"))
+            else:
+                for i, (g, e) in enumerate(zip(v, exp_v)):
+                    if not _rat_fun_equal(g, e, syms):
+                        bad.append(("symbolic-value", f"component {i}: the code evaluates {sp.simplify(g)} for symbolic inputs, the combination is {sp.simplify(e)}"))
+                        break
+                done = False
+                for i, e in enumerate(exp_v):
+                    for j, sj in enumerate(syms):
+                        if not _rat_fun_equal(jac[i, j], sp.diff(e, sj), syms):
+                            bad.append(("symbolic-jac", f"jac[{i}][{j}] is {sp.simplify(jac[i, j])} for symbolic inputs, the derivative is {sp.simplify(sp.diff(e, sj))}"))
+                            done = True
+                            break
+                    if done:
+                        break
+        if tree_depth(tree) >= 2:
+            res.nontrivial("sym:" + case_key(case))
+        if not bad:
+            res.count("symbolic-identities-proved")
+            continue
+        # a symbolic difference has numeric witnesses: look for one and shrink it (standard replay)
+        rng = common.make_rng(1, "c10-sym:" + case_key(case)[:200])
+        found = False
+        for _ in range(8):
+            c = dict(case, points=[gen_point(rng, n)])
+            nb = fails(c, None)
+            if nb:
+                clause, msg = nb[0]
+                small, sclause = shrink(c, clause)
+                res.violate("oracle", f"{sclause}:{root_sig(small['tree'], small['n'])}", msg + " [found by the symbolic stream]",
+                            {"case": small, "clause": sclause})
+                found = True
+                break
+        if not found:
+            clause, msg = bad[0]
+            res.violate("oracle", f"{clause}:{root_sig(tree, n)}", msg, {"case": dict(case, symbolic=True), "clause": clause})
+
+
+def gen_symbolic_case(rng) -> dict | None:
+    for _ in range(30):
+        c = gen_case(rng, max_depth=3)
+        if c is not None and symbolic_ok(c["tree"]) and c["n"] <= 3:
+            return c
+    return None
 
 
 def load_corpus() -> list[dict]:
@@ -936,6 +1119,20 @@ def run(ctx) -> Result:
         if c is not None:
             smooth.append(c)
     check_cases(res, smooth, True)
+    disc_cases = [gen_disc_case(rng) for _ in range(3000 if ctx.thorough else 200)]
+    check_cases(res, disc_cases, True)
+    res.count("stream:discipline", len(disc_cases))
+    n_sym = 1500 if ctx.thorough else 120
+    sym: list[dict] = []
+    while len(sym) < n_sym:
+        c = gen_symbolic_case(rng)
+        if c is not None:
+            sym.append(c)
+    for i in range(0, len(sym), 50):
+        if time.time() > ctx.deadline:
+            res.notes.append(f"deadline reached after {i} symbolic cases")
+            break
+        check_symbolic(res, sym[i : i + 50])
     return res
 
 
